@@ -32,12 +32,12 @@ let vc_of = function
   | "ge" -> VGe | "le" -> VLe | "eq" -> VEq | "gt" -> VGt | "lt" -> VLt | _ -> failwith "bad vc"
 exception Bad_version
 (* a version operand is a debversion::Version: what the code sees of it is Display(FromStr(text)),
-   modelled by RelAcc.debversion_roundtrip; a text that is not a version makes the operand an error *)
+   the model's RelEdit.version_operand; a text that is not a version makes the operand an error *)
 let ver_of (s : string) =
   if s = "-" then None
   else match S.index_opt s '.' with
     | Some i ->
-      (match RelAcc.debversion_roundtrip (u (S.sub s (i + 1) (S.length s - i - 1))) with
+      (match version_operand (u (S.sub s (i + 1) (S.length s - i - 1))) with
        | Ok v -> Some (vc_of (S.sub s 0 i), v)
        | _ -> raise Bad_version)
     | None -> failwith "bad ver"
@@ -105,21 +105,19 @@ let op_of (s : string) : op =
 let vc_text = function VGe -> ">=" | VLe -> "<=" | VEq -> "=" | VGt -> ">>" | VLt -> "<<"
 let hexa s = let b = Buffer.create 8 in S.iter (fun c -> Buffer.add_string b (Printf.sprintf "%02x" (Char.code c))) s; Buffer.contents b
 let profile_s = function PEnabled n -> "e" ^ hx n | PDisabled n -> "d" ^ hx n
-exception Dump_panic
 let relrec_s (r : relrec) =
   let qual = match r.rr_qual with None -> "-" | Some q -> hx q in
   let ver = match r.rr_ver with
     | None -> "-"
-    | Some (vc, v) -> (match RelAcc.debversion_roundtrip v with
-        | Ok v' -> hexa (vc_text vc) ^ "." ^ hx v'
-        | _ -> raise Dump_panic) in
+    | Some (vc, v) -> hexa (vc_text vc) ^ "." ^ hx v in
   let archs = match r.rr_archs with None -> "-" | Some [] -> "_" | Some l -> cat "." (L.map hx l) in
   let groups = L.map (fun g -> if g = [] then "_" else cat "." (L.map profile_s g)) r.rr_profs in
   let profs = if groups = [] then "-" else cat "+" groups in
   Printf.sprintf "%s~%s~%s~%s~%s" (hx r.rr_name) qual ver archs profs
+(* what the accessors return, versions through debversion: the model's RelEdit.structure_d *)
 let structure_s (t : RelLex.rkind elem) =
-  match structure t with
-  | Ok es -> (try cat ";" (L.map (fun e -> cat "," (L.map relrec_s e)) es) with Dump_panic -> "!")
+  match structure_d t with
+  | Ok es -> cat ";" (L.map (fun e -> cat "," (L.map relrec_s e)) es)
   | _ -> "!"
 
 exception Stop of string
